@@ -49,7 +49,7 @@ def run(tier, v):
     wd = vlib.workdir(PID)
     vlib.build_harness()
     K = set(vlib.known_devs(PID))
-    fams = [("freq", 1 if tier == "thorough" else 23), ("both", 1 if tier == "thorough" else 3), ("bad", 1), ("back", 1), ("role", 1), ("hsflags", 1)]
+    fams = [("freq", 1 if tier == "thorough" else 23), ("both", 1 if tier == "thorough" else 3), ("bad", 1), ("back", 1), ("role", 1), ("hsflags", 1), ("zero", 1)]
     n_steps = n_reports = n_scen = 0
     states = trans = 0
     samples = []
